@@ -60,14 +60,39 @@ def _opname(b):
 
 
 def _tx_sig_oracle(c, sig, key, code, sv):
-    _, spend = S.build_txs(bytes(c["sig"]), bytes(c["pk"]), [bytes(w) for w in c["wit"]], c.get("amount", 0),
-                           c["ctx"]["version"], int.from_bytes(bytes(c["ctx"]["locktime"]), "little"),
-                           int.from_bytes(bytes(c["ctx"]["sequence"]), "little"))
-    return S.sig_oracle_tx(sig, key, code, sv, spend)
+    spend, idx = S.spend_tx_of(c)
+    return S.sig_oracle_tx(sig, key, code, sv, spend, idx)
 
 
 def _fixed_sig_oracle(c, sig, key, code, sv):
     return S.sig_oracle_fixed(sig, key, S.Z_FIXED)
+
+
+def _any_sig_oracle(c, sig, key, code, sv):
+    if c["sigmode"] == "fixed":
+        return _fixed_sig_oracle(c, sig, key, code, sv)
+    return _tx_sig_oracle(c, sig, key, code, sv)
+
+
+class Batch:
+    """cases of several stages share the MC_ScriptRun rounds (one TLC start-up per oracle round)"""
+
+    def __init__(self, ctx):
+        self.ctx = ctx
+        self.parts = []
+
+    def add(self, cases, done):
+        self.parts.append((cases, done))
+
+    def run(self):
+        allc = [c for cases, _ in self.parts for c in cases]
+        if not allc:
+            return
+        res = spec_run(self.ctx, allc, _any_sig_oracle, label="batch")
+        k = 0
+        for cases, done in self.parts:
+            done(res[k:k + len(cases)])
+            k += len(cases)
 
 
 def _run_spend_chunk(chunk):
@@ -80,10 +105,13 @@ def _run_eval_chunk(chunk):
 
 # ------------------------------------------------------------------ stages
 
-def stage_core(ctx):
+def stage_core(ctx, batch):
     tests = S.load_core_script_tests(REPO + "/tests/btc/data/script_tests.json")
     cases = [t[0] for t in tests]
-    res = spec_run(ctx, cases, _tx_sig_oracle, label="core")
+    batch.add(cases, lambda res: _core_done(ctx, tests, cases, res))
+
+
+def _core_done(ctx, tests, cases, res):
     wrong = [(t[0]["text"], t[1], r["status"], r["err"]) for t, r in zip(tests, res) if (r["status"] == "ok") != (t[1] == "OK")]
     if wrong:
         raise MachineryError("spec disagrees with Bitcoin Core on %d of its own vectors, e.g. %s" % (len(wrong), wrong[:3]))
@@ -102,6 +130,38 @@ def stage_core(ctx):
     ctx.action("core.vectors", len(tests))
     ctx.extra["core_vectors_pycoin_exceptions"] = n_exc
     ctx.sample({"core_vector": tests[700][0]["text"], "consensus": tests[700][1]})
+
+
+def stage_coretx(ctx, batch):
+    """Core's tx_valid.json / tx_invalid.json: real multi-input transactions, every input a spend case"""
+    for name, valid in (("tx_valid", True), ("tx_invalid", False)):
+        tests = S.load_core_tx_tests(REPO + "/tests/btc/data/%s.json" % name, valid)
+        cases = [c for t in tests for c in t[0]]
+        batch.add(cases, lambda res, name=name, valid=valid, tests=tests, cases=cases: _coretx_done(ctx, name, valid, tests, cases, res))
+
+
+def _coretx_done(ctx, name, valid, tests, cases, res):
+    n_inputs = 0
+    if True:
+        got = [g for ch in pmap(_run_spend_chunk, split(cases, 16)) for g in ch]
+        k = 0
+        for t in tests:
+            rs = res[k:k + len(t[0])]
+            gs = got[k:k + len(t[0])]
+            k += len(t[0])
+            if valid and not all(r["status"] == "ok" for r in rs):
+                raise MachineryError("spec rejects an input of a transaction Bitcoin Core accepts (%s): %s" % (
+                    t[1][:80], [(r["status"], r["err"]) for r in rs]))
+            for r, g, c in zip(rs, gs, t[0]):
+                n_inputs += 1
+                ctx.case(("coretx", name, r["status"], r["err"], tuple(c["flags"])))
+                if (r["status"] == "ok") != (g[0] == "ok"):
+                    ctx.fail("C03|core-tx|%s|exp=%s:%s|got=%s" % (name, r["status"], r["err"], g[0]),
+                             "%s vector (%s) input %d: consensus %s %s, pycoin %s" % (name, t[1][:80], c["tx"]["idx"], r["status"], r["err"], g),
+                             {"txhex": t[2], "input": c["tx"]["idx"], "flags": c["flags"], "spec": r, "pycoin": g})
+    ctx.replayed += n_inputs
+    ctx.action("core.tx_inputs", n_inputs)
+    ctx.extra["core_tx_inputs"] = ctx.extra.get("core_tx_inputs", 0) + n_inputs
 
 
 def _enum_replay(ctx, cfgname, module="MC_ScriptEnum"):
@@ -188,11 +248,14 @@ def _concretize_chunk(chunk):
     return [S.concretize(s) for s in chunk]
 
 
-def stage_spend(ctx):
+def stage_spend(ctx, batch):
     r = ctx.tlc("MC_SpendShapes", "MC_SpendShapes_" + ("quick" if ctx.quick else "thorough"), workers=4)
     shapes = r.by_kind("shape")
     cases = [c for ch in pmap(_concretize_chunk, split(shapes, 64)) for c in ch]
-    res = spec_run(ctx, cases, _tx_sig_oracle, label="spend")
+    batch.add(cases, lambda res: _spend_done(ctx, cases, res))
+
+
+def _spend_done(ctx, cases, res):
     got = [g for ch in pmap(_run_spend_chunk, split(cases, 64)) for g in ch]
     n_ok = 0
     for c, rr, g in zip(cases, res, got):
@@ -336,9 +399,14 @@ def _limit_spends():
     return out
 
 
-def stage_limits(ctx):
+def stage_limits(ctx, batch):
     cases = _limit_cases(ctx.quick)
-    res = spec_run(ctx, cases, _fixed_sig_oracle, label="limits")
+    sp = _limit_spends()
+    batch.add(cases, lambda res: _limits_done(ctx, cases, res))
+    batch.add(sp, lambda res: _limit_spends_done(ctx, sp, res))
+
+
+def _limits_done(ctx, cases, res):
     got = [g for ch in pmap(_run_eval_chunk, split(cases, 32)) for g in ch]
     for c, rr, g in zip(cases, res, got):
         exp = ("ok", [bytes(x) for x in rr["stack"]]) if rr["status"] == "ok" else ("fail",)
@@ -350,8 +418,12 @@ def stage_limits(ctx):
             ctx.fail("C03|limit|%s|exp=%s:%s|got=%s" % (c["tag"] if fam in ("minpush", "truncated", "op") else c["tag"], rr["status"], rr["err"], how),
                      "scenario %s flags %s: consensus %s %s, pycoin %s" % (c["tag"], c["flags"], rr["status"], rr["err"], g[:1] + (str(g[1])[:80],)),
                      {"tag": c["tag"], "flags": c["flags"], "script_hex": bytes(c["pk"]).hex()[:400], "spec": {k: rr[k] for k in ("status", "err")}, "pycoin": g[0]})
-    sp = _limit_spends()
-    res2 = spec_run(ctx, sp, _tx_sig_oracle, label="limit-spends")
+    ctx.replayed += len(cases)
+    ctx.action("limits.scenarios", len(cases))
+    ctx.log("checked %d limit scenarios" % len(cases))
+
+
+def _limit_spends_done(ctx, sp, res2):
     got2 = [g for ch in pmap(_run_spend_chunk, split(sp, 16)) for g in ch]
     oks = 0
     for c, rr, g in zip(sp, res2, got2):
@@ -363,9 +435,9 @@ def stage_limits(ctx):
                      {"case": c, "spec": rr, "pycoin": g})
     if oks < 10:
         raise MachineryError("limit spends: only %d valid under the spec - the scenario builder is broken" % oks)
-    ctx.replayed += len(cases) + len(sp)
-    ctx.action("limits.scenarios", len(cases) + len(sp))
-    ctx.log("checked %d limit scenarios and %d real-transaction scenarios" % (len(cases), len(sp)))
+    ctx.replayed += len(sp)
+    ctx.action("limits.spend_scenarios", len(sp))
+    ctx.log("checked %d real-transaction scenarios" % len(sp))
 
 
 def stage_cond(ctx):
@@ -411,31 +483,65 @@ _TR_OPS = [97, 99, 100, 103, 104, 105, 107, 108, 109, 110, 111, 112, 113, 114, 1
            165, 171, 176, 177, 178, 166, 167, 168, 169, 170]
 
 
-def _random_script(rnd):
+# (needs, net effect) of the opcodes the random scripts use; numeric ones want small numbers on top
+_ARITY = {97: (0, 0), 105: (1, -1), 107: (1, -1), 108: (0, 1), 109: (2, -2), 110: (2, 2), 111: (3, 3), 112: (4, 2), 113: (6, 0),
+          114: (4, 0), 115: (1, 0), 116: (0, 1), 117: (1, -1), 118: (1, 1), 119: (2, -1), 120: (2, 1), 121: (2, 0), 122: (2, -1),
+          123: (3, 0), 124: (2, 0), 125: (2, 1), 130: (1, 1), 135: (2, -1), 136: (2, -2), 139: (1, 0), 140: (1, 0), 143: (1, 0),
+          144: (1, 0), 145: (1, 0), 146: (1, 0), 147: (2, -1), 148: (2, -1), 154: (2, -1), 155: (2, -1), 156: (2, -1), 157: (2, -2),
+          158: (2, -1), 159: (2, -1), 160: (2, -1), 161: (2, -1), 162: (2, -1), 163: (2, -1), 164: (2, -1), 165: (3, -2),
+          171: (0, 0), 176: (0, 0), 177: (1, 0), 178: (1, 0), 166: (1, 0), 167: (1, 0), 168: (1, 0), 169: (1, 0), 170: (1, 0)}
+
+
+def _random_script(rnd, depth0=0):
+    """stack-aware random script: most instructions find their operands, so runs are long;
+    a fraction is left to fail (underflow, unbalanced conditionals, 5-byte operands)"""
     out = bytearray()
-    depth = 0
-    n = rnd.randint(3, 14)
+    depth = depth0          # estimated stack depth
+    alt = 0
+    opened = 0
+    n = rnd.randint(4, 22)
+    sloppy = rnd.random() < 0.15
     for _ in range(n):
         r = rnd.random()
-        if r < 0.45:
+        if r < 0.38 or depth == 0:
             k = rnd.random()
-            if k < 0.3:
+            if k < 0.35:
                 out += bytes([rnd.choice([0, 79, 81, 82, 83, 84, 96])])
-            elif k < 0.8:
+            elif k < 0.85:
                 ln = rnd.choice([1, 1, 1, 2, 2, 3, 4, 4, 5])
                 d = bytes(rnd.choice([0, 1, 2, 0x7F, 0x80, 0x81, 0xFF]) for _ in range(ln))
-                out += S.push_enc(d)
+                out += S.push_enc(d) if rnd.random() < 0.9 else bytes([76, ln]) + d
             else:
                 d = bytes(rnd.randrange(256) for _ in range(rnd.choice([20, 33, 76, 80])))
                 out += S.push_enc(d)
-        else:
-            op = rnd.choice(_TR_OPS)
-            if op in (99, 100):
-                depth += 1
-            if op == 104 and depth > 0:
+            depth += 1
+        elif r < 0.50:
+            # conditionals
+            c = rnd.random()
+            if c < 0.45 and depth > 0:
+                out.append(rnd.choice([99, 100]))
                 depth -= 1
+                opened += 1
+            elif c < 0.7 and opened > 0:
+                out.append(103)
+            elif opened > 0:
+                out.append(104)
+                opened -= 1
+            elif sloppy:
+                out.append(rnd.choice([103, 104]))
+        else:
+            cands = [op for op, (need, _) in _ARITY.items() if need <= depth or sloppy]
+            if alt == 0:
+                cands = [op for op in cands if op != 108] or cands
+            op = rnd.choice(cands)
             out.append(op)
-    out += b"\x68" * depth if rnd.random() < 0.8 else b""
+            depth = max(0, depth + _ARITY[op][1])
+            if op == 107:
+                alt += 1
+            if op == 108:
+                alt = max(0, alt - 1)
+    if not sloppy or rnd.random() < 0.5:
+        out += b"\x68" * opened
     return bytes(out)
 
 
@@ -446,10 +552,11 @@ def _record_chunk(args):
                 ["CHECKLOCKTIMEVERIFY", "CHECKSEQUENCEVERIFY", "MINIMALIF"]]
     out = []
     for i in range(count):
-        script = _random_script(rnd)
+        nst = rnd.randint(0, 3)
+        script = _random_script(rnd, nst)
         fl = rnd.choice(flagsets)
         sv = "wit" if "MINIMALIF" in fl and rnd.random() < 0.7 else "base"
-        stack = [bytes(rnd.choice([0, 1, 2, 0x80]) for _ in range(rnd.choice([0, 1, 1, 2]))) for _ in range(rnd.randint(0, 3))]
+        stack = [bytes(rnd.choice([0, 1, 2, 0x80]) for _ in range(rnd.choice([0, 1, 1, 2]))) for _ in range(nst)]
         case = S.mk_case("eval", pk=script, stack=stack, sv=sv, flags=fl, version=rnd.choice([1, 2]), locktime=rnd.choice([0, 100, 500000001]),
                          sequence=rnd.choice([0xFFFFFFFF, 10, 0x400005]), sigmode="fixed")
         tr = []
@@ -525,7 +632,7 @@ def _validate_script_traces(ctx, data):
     return rejected
 
 
-STAGES = [("core", stage_core), ("enum", stage_enum), ("sig", stage_sig), ("spend", stage_spend), ("limits", stage_limits),
+STAGES = [("core", stage_core), ("coretx", stage_coretx), ("enum", stage_enum), ("sig", stage_sig), ("spend", stage_spend), ("limits", stage_limits),
           ("cond", stage_cond), ("trace", stage_trace)]
 
 
@@ -539,8 +646,13 @@ def run(ctx):
         "transaction versions are small non-negative integers",
     ]
     only = getattr(ctx, "only", None)
+    batch = Batch(ctx)
     for name, f in STAGES:
         if only and name not in only:
             continue
-        f(ctx)
+        if name in ("core", "coretx", "spend", "limits"):
+            f(ctx, batch)
+        else:
+            f(ctx)
+    batch.run()
     ctx.exhaustive = False
